@@ -186,4 +186,22 @@ def replay (d : List Entry) (order : List Key) : Option String :=
   | some env => env .results
   | none => none
 
+/-- Replay of an observed firing order given by task NAMES.  Several tasks may
+    carry the same name (distinct tasks that are equal by value, sharing one
+    function object, so the call log cannot tell them apart): the replay succeeds
+    if SOME assignment of the not yet fired tasks of each name makes the whole
+    sequence admissible (depth-first search over the candidates). -/
+def replayEnv (d : List Entry) : Env Key String → List Nat → Option (Env Key String)
+  | env, [] => some env
+  | env, n :: ns =>
+    (d.filter (fun e => e.task.name == n)).findSome? (fun e =>
+      match fire (daskGraph d) env e.key with
+      | some env' => replayEnv d env' ns
+      | none => none)
+
+def replayNames (d : List Entry) (names : List Nat) : Option String :=
+  match replayEnv d Env.empty names with
+  | some env => env .results
+  | none => none
+
 end Pharmpy.C17
